@@ -80,6 +80,101 @@ def split_blocks(lines):
     return blocks
 
 
+def parse_dump(line):
+    """'r=.. e=.. s=N t=N c=N [..]' -> (ret, size, tally, slots)"""
+    parts = line.split(" ")
+    ret = parts[0][2:]
+    size = int(parts[2][2:]); tally = int(parts[3][2:])
+    body = line[line.index("[") + 1:line.rindex("]")]
+    slots = []
+    for tok in [x for x in body.split(",") if x]:
+        if tok.startswith("_x"):
+            slots.extend([None] * int(tok[2:]))
+        else:
+            slots.append(int(tok))
+    return ret, size, tally, slots
+
+
+def oracle(lines, cout):
+    """The English property evaluated directly on the implementation's dumps, independently of the Lean model:
+    a plain python list is the ideal array. Returns (index, message) of the first op whose result breaks the
+    property, or None. (The impl's own success/failure report is followed: allocation outcomes are its business.)"""
+    shadow = []
+    heap = []
+    prev_h = []
+    for i, l in enumerate(lines):
+        if i >= len(cout):
+            return (i, "no output for this op (crash or hang)")
+        o = cout[i]
+        if o == "HANG":
+            return (i, "call did not return")
+        w = l.split()
+        if w[0] == "new":
+            shadow, heap, prev_h = [], [], []
+            continue
+        if o == "bad-op":
+            continue
+        try:
+            if w[0][0] == "h":
+                body = o[o.index("[") + 1:o.index("]")]
+                h = [int(x) for x in body.split(",") if x.strip()]
+                if w[0] == "hpush":
+                    heap = heap + [int(w[1])]
+                elif w[0] == "hdel":
+                    k = int(w[1])
+                    if k < len(prev_h):
+                        heap = list(heap); heap.remove(prev_h[k])
+                elif w[0] == "hupd":
+                    k = int(w[1])
+                    if k < len(prev_h):
+                        heap = list(heap); heap.remove(prev_h[k]); heap.append(int(w[2]))
+                prev_h = h
+                if sorted(h) != sorted(heap):
+                    return (i, "heap contents %s are not the expected multiset %s" % (h, sorted(heap)))
+                if any(h[j] > h[(j - 1) // 2] for j in range(1, len(h))):
+                    return (i, "heap order broken: %s" % h)
+                continue
+            ret, size, tally, slots = parse_dump(o)
+        except Exception as e:
+            return (i, "unparsable impl output %r" % o[:100])
+        ok = ret not in ("ENOMEM", "EINVAL", "EBUFFULL", "NULL", "E?")
+        if w[0] in ("insert", "upsert", "update") and ok:
+            pos, v = int(w[1]), int(w[2])
+            if w[0] == "update" or (w[0] == "upsert" and pos < len(shadow)):
+                if pos >= len(shadow):
+                    return (i, "update beyond size reported success")
+                shadow[pos] = v
+            elif pos >= len(shadow):
+                shadow = shadow + [None] * (pos - len(shadow)) + [v]
+            else:
+                shadow = shadow[:pos] + [v] + shadow[pos:]
+            if ret != str(pos):
+                return (i, "returned %s, expected position %d" % (ret, pos))
+        elif w[0] == "delete":
+            idx, c = int(w[1]), int(w[2])
+            n = 0 if idx >= len(shadow) else min(c, len(shadow) - idx)
+            shadow = shadow[:idx] + shadow[idx + n:]
+            if ret != str(n):
+                return (i, "delete returned %s, expected %d" % (ret, n))
+        elif w[0] == "uplete":
+            idx, c = int(w[1]), int(w[2])
+            n = 0 if idx >= len(shadow) else min(c, len(shadow) - idx)
+            shadow = shadow[:idx] + [None] * n + shadow[idx + n:]
+        elif w[0] == "clear":
+            shadow = []
+        elif w[0] == "setcapa":
+            c = int(w[1])
+            if c < len(shadow) and (ok or True):
+                shadow = shadow[:c]
+        if slots != shadow:
+            return (i, "array content differs from the ideal array after %r" % l)
+        if size != len(shadow):
+            return (i, "size %d but last used index + 1 = %d" % (size, len(shadow)))
+        if tally != sum(1 for x in shadow if x is not None):
+            return (i, "tally %d but %d occupied slots" % (tally, sum(1 for x in shadow if x is not None)))
+    return None
+
+
 def compare(ctx, exe, lines, wd=10):
     """run both sides; returns (index of first differing line | None, impl_out, model_out, status)"""
     rc, cout, cerr = C.run_harness(exe, [str(wd)], lines, timeout=max(60, wd * 4))
@@ -172,7 +267,7 @@ def run(ctx):
         st = C.classify_rc(rc, cerr)
         if cout and cout[-1] == "HANG":
             st = "HANG"
-        return bs, C.diff_streams(cout, mout), st
+        return bs, C.diff_streams(cout, mout), st, oracle(ls, cout)
     from concurrent.futures import ThreadPoolExecutor
     with ThreadPoolExecutor(max_workers=8) as ex:
         results = list(ex.map(run_batch, batches))
@@ -181,45 +276,70 @@ def run(ctx):
     for l in lines:
         dist[l.split()[0]] = dist.get(l.split()[0], 0) + 1
     status = "ok"
-    for bs, d, st in results:
-        if d is None and st == "ok":
+
+    def locate(bs, d):
+        upto = 0
+        for b in bs:
+            if upto <= d < upto + len(b):
+                return b
+            upto += len(b)
+        return None
+
+    def norm(sub):
+        return sub if sub and sub[0] == "new" else ["new"] + [x for x in sub if x != "new"]
+
+    # (1) the property itself, evaluated on the implementation (oracle) — a hit is a concrete failing input
+    for bs, d, st, orc in results:
+        if orc is None and st == "ok":
             continue
         status = st
-        # locate the failing history inside the batch
-        upto = 0
-        bad = None
-        for b in bs:
-            if d is not None and upto <= d < upto + len(b):
-                bad = b; break
-            upto += len(b)
+        bad = locate(bs, orc[0]) if orc else None
         if bad is None:
-            # crash/hang without a differing line: find the first history that fails alone
             for b in bs:
                 dd, co, mo, st2, ce = compare(ctx, exe, b, wd=10)
-                if dd is not None or st2 != "ok":
+                if st2 != "ok" or oracle(b, co):
                     bad = b; break
         if bad is None:
             ctx.problem("corr", "batch failed (%s) but no single history reproduces it" % st,
                         "\n".join(l for b in bs for l in b)[:200000], found_input=False)
             break
 
-        def fails(sub):
-            if not sub or sub[0] != "new":
-                sub = ["new"] + [x for x in sub if x != "new"]
+        def fails_prop(sub):
+            sub = norm(sub)
             dd, co, mo, st2, ce = compare(ctx, exe, sub, wd=5)
-            return dd is not None or st2 != "ok"
-        small = C.ddmin(bad, fails, max_tests=150)
-        if not small or small[0] != "new":
-            small = ["new"] + [x for x in small if x != "new"]
+            return st2 != "ok" or oracle(sub, co) is not None
+        small = norm(C.ddmin(bad, fails_prop, max_tests=150))
         dd, co, mo, st2, ce = compare(ctx, exe, small, wd=5)
-        if dd is None and st2 == "ok":      # shrinking lost it: fall back to the unshrunk history
+        o2 = oracle(small, co)
+        if o2 is None and st2 == "ok":
             small = bad
             dd, co, mo, st2, ce = compare(ctx, exe, small, wd=10)
-        k = dd if dd is not None else max(0, len(co) - 1)
-        what = "arr.c disagrees with the model on a %d-op history (status %s): op %r: impl %r vs model %r" % (
-            len(small) - 1, st2, small[min(k, len(small) - 1)], co[k] if k < len(co) else "<no output>", mo[k] if k < len(mo) else "<none>")
-        ctx.problem("impl", what, "# feed to harness/arr_h.c (built against /repo) and to `hawkdrv arr`\n" + "\n".join(small) + "\n# impl:\n" + "\n".join(co) + "\n# model:\n" + "\n".join(mo) + "\n" + ce[-1500:], found_input=(dd is not None or st2 != "ok"))
+            o2 = oracle(small, co)
+        what = "arr.c breaks the property on a %d-op history (status %s): %s" % (
+            len(small) - 1, st2, ("op %r: %s" % (small[min(o2[0], len(small) - 1)], o2[1])) if o2 else "sanitizer/hang")
+        ctx.problem("impl", what, "# feed to harness/arr_h.c (built against /repo) and to `hawkdrv arr`\n" + "\n".join(small) + "\n# impl:\n" + "\n".join(co) + "\n# model:\n" + "\n".join(mo) + "\n" + ce[-1500:], found_input=True)
         break
+    # (2) correspondence with the Lean model — a break here means the theorems no longer speak about this code;
+    #     it is reported as a violation without a failing input unless (1) produced one
+    if not ctx.problems:
+        for bs, d, st, orc in results:
+            if d is None:
+                continue
+            bad = locate(bs, d) or bs[0]
+
+            def fails_corr(sub):
+                dd, co, mo, st2, ce = compare(ctx, exe, norm(sub), wd=5)
+                return dd is not None
+            small = norm(C.ddmin(bad, fails_corr, max_tests=150))
+            dd, co, mo, st2, ce = compare(ctx, exe, small, wd=5)
+            if dd is None:
+                small = bad
+                dd, co, mo, st2, ce = compare(ctx, exe, small, wd=10)
+            k = dd if dd is not None else 0
+            what = "correspondence broken: arr.c and the model differ on a %d-op history although the implementation still satisfies the property on all %d generated ops: op %r: impl %r vs model %r (theorems of Props/C19 are about the model)" % (
+                len(small) - 1, evaluations, small[min(k, len(small) - 1)], co[k] if k < len(co) else "<no output>", mo[k] if k < len(mo) else "<none>")
+            ctx.problem("corr", what, "# correspondence HawkModel.Arr <-> lib/arr.c no longer holds; first differing line below\n" + "\n".join(small) + "\n# impl:\n" + "\n".join(co) + "\n# model:\n" + "\n".join(mo) + "\n", found_input=False)
+            break
     evaluations += hawk_level(ctx, libdir)
     nontriv = len({tuple(b) for b in blocks if nontrivial_signature(b)})
     samples = [" ; ".join(b[:8]) for b in blocks[ncorpus and 1 or 0:][-3:]] + [" ; ".join(blocks[len(blocks) // 2][:10])]
